@@ -30,13 +30,13 @@ var c10Sets = [][]mockq.KV{
 }
 
 type c10Input struct {
-	Sets     []int  `json:"sets"`     // indexes into the alphabet, one record each (timestamps 1s apart)
+	Sets []int `json:"sets"` // indexes into the alphabet, one record each (timestamps 1s apart)
 	// Explicit label sets (used instead of Sets when non-empty): pairs that collide under some separator-free serialisation.
 	Explicit [][]mockq.KV `json:"explicit,omitempty"`
-	Shape    string `json:"shape"`    // count, sum-count, avg-unwrap
-	Grouping string `json:"grouping"` // "", by(a), by(a,c), by(ab), without(a), without(c)
-	Range    bool   `json:"range"`    // 3-step range query instead of instant
-	Bound    int    `json:"bound"`    // MAPITER deviation bound
+	Shape    string       `json:"shape"`    // count, sum-count, avg-unwrap
+	Grouping string       `json:"grouping"` // "", by(a), by(a,c), by(ab), without(a), without(c)
+	Range    bool         `json:"range"`    // 3-step range query instead of instant
+	Bound    int          `json:"bound"`    // MAPITER deviation bound
 }
 
 var c10Groupings = map[string]*refmodel.Grouping{
@@ -180,6 +180,11 @@ func c10Colliding() [][2][]mockq.KV {
 		return out
 	}
 	var out [][2][]mockq.KV
+	// same names, permuted values: any key that only depends on the multiset of names and values merges these
+	for _, pv := range [][2]string{{"b", "c"}, {"", "b"}, {"bc", "cd"}} {
+		out = append(out, [2][]mockq.KV{{{K: "a", V: pv[0]}, {K: "c", V: pv[1]}}, {{K: "a", V: pv[1]}, {K: "c", V: pv[0]}}})
+		out = append(out, [2][]mockq.KV{{{K: "ab", V: pv[0]}, {K: "b", V: pv[1]}}, {{K: "ab", V: pv[1]}, {K: "b", V: pv[0]}}})
+	}
 	for i := range sets {
 		for j := i + 1; j < len(sets); j++ {
 			a, b := sets[i], sets[j]
